@@ -430,6 +430,7 @@ pub struct Verdict {
     pub steps: u64,
     pub resumes: u64,
     pub bp_changes_while_running: u64,
+    pub steps_while_running: u64,
     pub checks: BTreeMap<String, u64>,
     pub terminated: bool,
     pub trace_len: usize,
@@ -553,6 +554,12 @@ impl<'a> Session<'a> {
             self.view = View::Unknown;
             return Ok(());
         }
+        if self.v.found.is_some() {
+            self.view = View::Stopped(idx);
+            return Ok(());
+        }
+        // every stop: the reported frame must contain the true program counter
+        self.check_stack_trace(idx)?;
         if self.v.found.is_some() {
             self.view = View::Stopped(idx);
             return Ok(());
@@ -710,6 +717,28 @@ impl<'a> Session<'a> {
                 self.v.resumes += 1;
                 self.dap.request("continue", json!({"threadId": 1}))?;
                 self.begin_free_run(i as i64);
+            }
+            (Op::Next, View::Running) | (Op::StepIn, View::Running) | (Op::StepOut, View::Running) => {
+                // A step request while the machine runs freely ("any timing of client requests"): where it
+                // ends up is not specified, but it must end in a consistent stop. The instructions executed by
+                // the step itself ignore breakpoints by design, so this run is not judged for run-overs.
+                self.v.steps_while_running += 1;
+                let cmd = match op {
+                    Op::Next => "next",
+                    Op::StepIn => "stepIn",
+                    _ => "stepOut",
+                };
+                self.pause_sent = true;
+                self.run_from = None;
+                let r = self.dap.request(cmd, json!({"threadId": 1}))?;
+                if r.get("success").and_then(|s| s.as_bool()) == Some(true) {
+                    if self.dap.wait_event("stopped", Duration::from_secs(5)).is_some() {
+                        self.on_stopped(None)?;
+                    } else if self.dap.take_event("terminated").is_some() {
+                        self.v.terminated = true;
+                        self.view = View::Terminated;
+                    }
+                }
             }
             (Op::StepOut, View::Stopped(i)) if self.reference.trace[i].return_to.is_none() => {
                 // not inside a subroutine: the property does not say what stepOut means here
@@ -1142,7 +1171,7 @@ pub fn main(cli: &Cli) -> i32 {
                 }
                 for (k2, c) in [
                     ("stops_observed", v.stops_observed), ("pauses", v.pauses), ("steps", v.steps), ("resumes", v.resumes),
-                    ("breakpoint_changes_while_running", v.bp_changes_while_running), ("terminated", v.terminated as u64),
+                    ("breakpoint_changes_while_running", v.bp_changes_while_running), ("steps_while_running", v.steps_while_running), ("terminated", v.terminated as u64),
                     ("client_ops", v.ops_done), ("reference_instructions", v.trace_len as u64),
                 ] {
                     *acc.counters.entry(k2.to_string()).or_insert(0) += c;
